@@ -353,6 +353,87 @@ pub fn emit_case(rng: &mut Rng, bytes0: &[u8], out: &mut Vec<String>, native_fri
             }
         }
     }
+    // DIV/IDIV: the interesting inputs relate dividend and divisor (quotient exactly at the limit of the destination), which
+    // independent random values never hit: steer them half of the time
+    let mut mem_patch: Option<(u64, Vec<u8>)> = None;
+    if matches!(ins.mnemonic(), Mnemonic::Div | Mnemonic::Idiv) && rng.chance(1, 2) {
+        let opreg = if ins.op0_kind() == OpKind::Register { Some(ins.op0_register()) } else { None };
+        let w: u32 = match opreg {
+            Some(r) => 8 * r.size() as u32,
+            None => 8 * sz as u32,
+        };
+        let mask: u64 = if w == 64 { u64::MAX } else { (1u64 << w) - 1 };
+        let parent_shift = opreg.map(|r| {
+            if matches!(r, Register::AH | Register::CH | Register::DH | Register::BH) {
+                (r.full_register().number(), 8u32)
+            } else {
+                (r.full_register().number(), 0u32)
+            }
+        });
+        let addr_uses_ad = [ins.memory_base(), ins.memory_index()]
+            .iter()
+            .any(|r| (r.is_gpr64() || r.is_gpr32()) && (r.number() == 0 || r.number() == 2));
+        let tied = matches!(parent_shift, Some((0, _)) | Some((2, _))) || addr_uses_ad;
+        if !tied && (8..=64).contains(&w) {
+            let d: u64 = match rng.below(7) {
+                0 => 1,
+                1 => mask,
+                2 => 1u64 << (w - 1),
+                3 => 2 + rng.below(5),
+                4 => mask - rng.below(3),
+                _ => rng.val_w(w) & mask,
+            };
+            match parent_shift {
+                Some((n, sh)) => regs[n] = (regs[n] & !(mask << sh)) | (d << sh),
+                None => {
+                    if let Some(a) = ea_of(&regs) {
+                        mem_patch = Some((a, (0..(w / 8) as usize).map(|k| (d >> (8 * k)) as u8).collect()));
+                    }
+                }
+            }
+            let (hi, lo): (u64, u64) = if ins.mnemonic() == Mnemonic::Div {
+                let hi = match rng.below(5) {
+                    0 => d,
+                    1 => d.wrapping_sub(1),
+                    2 => 0,
+                    3 => d.wrapping_add(1),
+                    _ => if d > 0 { rng.below(d) } else { rng.val_w(w) },
+                } & mask;
+                let lo = match rng.below(4) {
+                    0 => 0,
+                    1 => mask,
+                    2 => d,
+                    _ => rng.val_w(w),
+                } & mask;
+                (hi, lo)
+            } else {
+                let sd: i128 = if w == 64 { d as i64 as i128 } else { ((d << (64 - w)) as i64 >> (64 - w)) as i128 };
+                let lim: i128 = 1i128 << (w - 1);
+                let q: i128 = match rng.below(7) {
+                    0 => lim - 1,
+                    1 => lim,
+                    2 => -lim,
+                    3 => -lim - 1,
+                    4 => 0,
+                    5 => rng.below(16) as i128 - 8,
+                    _ => (rng.val_w(w) as i128) - lim,
+                };
+                let ad = sd.unsigned_abs().max(1);
+                let r0 = (rng.next() as u128 % ad) as i128;
+                let mut n = q.wrapping_mul(sd);
+                // remainder takes the sign of the dividend
+                n = if n >= 0 { n + r0 } else { n - r0 };
+                let un = n as u128;
+                (((un >> w) as u64) & mask, (un as u64) & mask)
+            };
+            if w == 8 {
+                regs[0] = (regs[0] & !0xffff) | (hi << 8) | lo;
+            } else {
+                regs[2] = (regs[2] & !mask) | hi;
+                regs[0] = (regs[0] & !mask) | lo;
+            }
+        }
+    }
     let ea = ea_of(&regs);
     out.push(format!("new {} {:x} {:x}", hex(&bytes), CODE, CODE));
     out.push(dec_line(&bytes, CODE, CODE)?);
@@ -372,6 +453,11 @@ pub fn emit_case(rng: &mut Rng, bytes0: &[u8], out: &mut Vec<String>, native_fri
                 && !collides(page, len, STACK, stack_len);
             if ok {
                 out.push(format!("areaz {:x} {:x} {:x} data", page, len, rng.next()));
+                if let Some((a, b)) = &mem_patch {
+                    if *a >= page && a + b.len() as u64 <= page + len {
+                        out.push(format!("mwb {:x} {}", a, hex(b)));
+                    }
+                }
                 if place == Place::Ro {
                     out.push(format!("prot {:x} 1", page));
                 }
